@@ -1,9 +1,274 @@
-/- C13 — df_slice / df_unslice (work in progress) -/
+/-
+  C13 — df_slice keeps exactly the rows in the interval; stitching switches at bounds; df_unslice inverts.
+  Property theorems only (helper lemmas: PygProofs/Lemmas/SliceLemmas.lean).
+-/
 import PygModel.Slice
+import PygProofs.Lemmas.SliceLemmas
 
 namespace Pyg.Props.C13
 open Pyg Pyg.Slice
 
-theorem brackets_default : brackets (some ['(', ']']) = .ok (false, true) := rfl
+/-! ### brackets -/
+
+theorem brackets_oo : brackets (some ['(', ')']) = .ok (false, false) := rfl
+theorem brackets_oc : brackets (some ['(', ']']) = .ok (false, true) := rfl
+theorem brackets_co : brackets (some ['[', ')']) = .ok (true, false) := rfl
+theorem brackets_cc : brackets (some ['[', ']']) = .ok (true, true) := rfl
+/-- the letter spellings, and the fall-back `'[)'` for an empty / missing `openclose` -/
+theorem brackets_letters : brackets (some ['o', 'c']) = .ok (false, true) ∧ brackets (some ['C', 'O']) = .ok (true, false) ∧
+    brackets (some []) = .ok (true, false) ∧ brackets Option.none = .ok (true, false) := ⟨rfl, rfl, rfl, rfl⟩
+
+/-- anything else is rejected: a character outside `()oO[]cC`, or not exactly two characters -/
+theorem brackets_reject_char (a b : Char) (h : a ∉ ['(', ')', 'o', 'O', '[', ']', 'c', 'C']) :
+    brackets (some [a, b]) = .error .value := by
+  simp only [List.mem_cons, List.not_mem_nil, or_false, not_or] at h
+  simp [brackets, closed, h, bind, Except.bind]
+
+theorem brackets_reject_length (s : List Char) (h0 : s ≠ []) (h : s.length ≠ 2) : brackets (some s) = .error .value := by
+  match s, h0, h with
+  | [_], _, _ => rfl
+  | _ :: _ :: _ :: _, _, _ => rfl
+
+/-! ### one slice -/
+
+/-- the masks spelled out: a closed bracket admits the bound itself, an open one does not; a missing bound
+    admits everything; a time of day is compared with the row's time of day -/
+theorem lbOk_iff (l : Bool) (lb : Bound) (t : Int) : lbOk l lb t = true ↔
+    match lb with
+    | .none => True
+    | .date x => if l then x ≤ t else x < t
+    | .time x => if l then x ≤ tod t else x < tod t := by
+  cases lb <;> cases l <;> simp [lbOk]
+
+theorem ubOk_iff (u : Bool) (ub : Bound) (t : Int) : ubOk u ub t = true ↔
+    match ub with
+    | .none => True
+    | .date x => if u then t ≤ x else t < x
+    | .time x => if u then tod t ≤ x else tod t < x := by
+  cases ub <;> cases u <;> simp [ubOk]
+
+/-- **slice_iff**: `df_slice(ts, lb, ub, openclose)` returns exactly the rows whose timestamp passes both
+    bracket tests - rows and values untouched, order kept (it is a `filter` of the input) -/
+theorem slice_spec {α} (df : Rows α) (lb ub : Bound) (oc : Option (List Char)) (l u : Bool)
+    (h : brackets oc = .ok (l, u)) :
+    sliceOne df lb ub oc = .ok (df.filter fun r => lbOk l lb r.1 && ubOk u ub r.1) := sliceOne_eq df lb ub oc l u h
+
+theorem slice_iff {α} (df r : Rows α) (lb ub : Bound) (oc : Option (List Char)) (l u : Bool)
+    (h : brackets oc = .ok (l, u)) (hr : sliceOne df lb ub oc = .ok r) (x : Int × α) :
+    x ∈ r ↔ x ∈ df ∧ lbOk l lb x.1 = true ∧ ubOk u ub x.1 = true := by
+  rw [slice_spec df lb ub oc l u h] at hr
+  cases hr
+  simp [List.mem_filter]
+
+theorem slice_sublist {α} (df r : Rows α) (lb ub : Bound) (oc : Option (List Char))
+    (hr : sliceOne df lb ub oc = .ok r) : r.Sublist df := by
+  unfold sliceOne at hr
+  split at hr
+  · cases hr; exact List.Sublist.refl _
+  · cases hb : brackets oc with
+    | error e => simp [hb, bind, Except.bind] at hr
+    | ok lu =>
+      simp only [hb, bind, Except.bind, pure, Except.pure] at hr
+      cases hr
+      exact List.filter_sublist.trans List.filter_sublist
+
+/-- the four bracket pairs on date bounds, in plain inequalities -/
+theorem slice_dates_iff {α} (df : Rows α) (a b : Int) (l u : Bool) (oc : Option (List Char))
+    (h : brackets oc = .ok (l, u)) (r : Rows α) (hr : sliceOne df (.date a) (.date b) oc = .ok r) (x : Int × α) :
+    x ∈ r ↔ x ∈ df ∧ (if l then a ≤ x.1 else a < x.1) ∧ (if u then x.1 ≤ b else x.1 < b) := by
+  rw [slice_iff df r _ _ oc l u h hr, lbOk_iff, ubOk_iff]
+
+example : sliceOne [((0 : Int), 'a'), (5, 'b'), (9, 'c')] (.date 0) (.date 9) (some ['(', ']']) = .ok [(5, 'b'), (9, 'c')] := rfl
+example : sliceOne [((0 : Int), 'a'), (5, 'b'), (9, 'c')] (.date 0) (.date 9) (some ['[', ')']) = .ok [(0, 'a'), (5, 'b')] := rfl
+
+/-- a missing bound is unbounded -/
+theorem slice_unbounded_below {α} (df : Rows α) (b : Int) (l u : Bool) (oc : Option (List Char))
+    (h : brackets oc = .ok (l, u)) (r : Rows α) (hr : sliceOne df .none (.date b) oc = .ok r) (x : Int × α) :
+    x ∈ r ↔ x ∈ df ∧ (if u then x.1 ≤ b else x.1 < b) := by
+  rw [slice_iff df r _ _ oc l u h hr, lbOk_iff, ubOk_iff]; simp
+
+theorem slice_unbounded_above {α} (df : Rows α) (a : Int) (l u : Bool) (oc : Option (List Char))
+    (h : brackets oc = .ok (l, u)) (r : Rows α) (hr : sliceOne df (.date a) .none oc = .ok r) (x : Int × α) :
+    x ∈ r ↔ x ∈ df ∧ (if l then a ≤ x.1 else a < x.1) := by
+  rw [slice_iff df r _ _ oc l u h hr, lbOk_iff, ubOk_iff]; simp
+
+/-- brackets the code cannot parse are an error, not a silent default (unless there is nothing to cut) -/
+theorem slice_rejects {α} (df : Rows α) (lb ub : Bound) (oc : Option (List Char)) (e : Err)
+    (h : brackets oc = .error e) (hdf : df ≠ []) (hb : lb ≠ .none ∨ ub ≠ .none) :
+    sliceOne df lb ub oc = .error e := sliceOne_reject df lb ub oc e h hdf hb
+
+/-! ### times of day -/
+
+/-- **tod_slice_iff**: time-of-day bounds are compared with each row's time of day (`t mod one day`) -/
+theorem tod_slice_iff {α} (df : Rows α) (a b : Int) (hab : a ≤ b) (l u : Bool) (oc : Option (List Char))
+    (h : brackets oc = .ok (l, u)) (r : Rows α) (hr : sliceWrap df (.time a) (.time b) oc = .ok r) (x : Int × α) :
+    x ∈ r ↔ x ∈ df ∧ (if l then a ≤ tod x.1 else a < tod x.1) ∧ (if u then tod x.1 ≤ b else tod x.1 < b) := by
+  have : ¬ b < a := by omega
+  simp only [sliceWrap, this, if_false] at hr
+  rw [slice_iff df r _ _ oc l u h hr, lbOk_iff, ubOk_iff]
+
+/-- **wrap_iff**: a window whose start is later than its end wraps past midnight: the rows at or after the
+    start OR at or before the end, each test with its own bracket; rows, values and order untouched -/
+theorem wrap_spec {α} (df : Rows α) (hs : df.Pairwise (fun x y => x.1 < y.1)) (a b : Int) (hab : b < a) (l u : Bool)
+    (oc : Option (List Char)) (h : brackets oc = .ok (l, u)) :
+    sliceWrap df (.time a) (.time b) oc = .ok (df.filter fun r => lbOk l (.time a) r.1 || ubOk u (.time b) r.1) := by
+  simp only [sliceWrap, hab, if_true]
+  rw [sliceOne_eq df .none (.time b) oc l u h, sliceOne_eq df (.time a) .none oc l u h]
+  simp only [bind, Except.bind, pure, Except.pure, inWindow]
+  congr 1
+  have hd : ∀ x : Int × α, ¬ ((lbOk l Bound.none x.1 && ubOk u (.time b) x.1) = true ∧
+      (lbOk l (.time a) x.1 && ubOk u Bound.none x.1) = true) := by
+    intro x ⟨h1, h2⟩
+    simp only [Bool.and_eq_true] at h1 h2
+    have h1' := (ubOk_iff u (.time b) x.1).mp h1.2
+    have h2' := (lbOk_iff l (.time a) x.1).mp h2.1
+    cases l <;> cases u <;> simp at h1' h2' <;> omega
+  rw [sortIndex_disjoint df hs _ _ hd]
+  apply List.filter_congr
+  intro x _
+  simp [lbOk, ubOk]
+
+theorem wrap_iff {α} (df r : Rows α) (hs : df.Pairwise (fun x y => x.1 < y.1)) (a b : Int) (hab : b < a) (l u : Bool)
+    (oc : Option (List Char)) (h : brackets oc = .ok (l, u)) (hr : sliceWrap df (.time a) (.time b) oc = .ok r)
+    (x : Int × α) :
+    x ∈ r ↔ x ∈ df ∧ ((if l then a ≤ tod x.1 else a < tod x.1) ∨ (if u then tod x.1 ≤ b else tod x.1 < b)) := by
+  rw [wrap_spec df hs a b hab l u oc h] at hr
+  cases hr
+  simp only [List.mem_filter, Bool.or_eq_true, lbOk_iff, ubOk_iff]
+
+/-- 18:00 → 06:00 with `'[)'` keeps the 18:00 row and drops the 06:00 row (the unrepaired code did the opposite, F5) -/
+example : sliceWrap [((0 : Int), 'a'), (6 * 3600000000, 'b'), (18 * 3600000000, 'c'), (DAY, 'd')]
+    (.time (18 * 3600000000)) (.time (6 * 3600000000)) (some ['[', ')']) = .ok [(0, 'a'), (18 * 3600000000, 'c'), (DAY, 'd')] := by
+  rw [wrap_spec _ (by decide) _ _ (by decide) true false _ rfl]; rfl
+
+/-! ### stitching a list of series at increasing upper bounds -/
+
+/-- the hypotheses under which the property speaks about stitching: as many series as bounds (at least two),
+    proper series, bounds in non-decreasing order -/
+structure Stitchable (dfs : List TS) (ub : List Int) : Prop where
+  len : dfs.length = ub.length
+  two : 2 ≤ ub.length
+  sorted : ∀ s ∈ dfs, s.Sorted
+  inc : nonDecreasing ub = true
+
+example : Stitchable [[(0, some 1), (5, some 2)], [], [(1, some 7), (9, none)]] [4, 6, 10] :=
+  ⟨rfl, by decide, by decide, rfl⟩
+
+theorem assemble_many (P : List Frame) (h : 2 ≤ P.length) :
+    assemble P = some ⟨P.foldl (fun m f => max m f.width) 0,
+      P.flatMap fun f => f.rows.map fun r => (r.1, padRow (P.foldl (fun m f => max m f.width) 0) r.2)⟩ := by
+  match P, h with
+  | _ :: _ :: _, _ => rfl
+
+/-- the stitched frame is the concatenation of the pieces `pieces dfs ub n l u`: series `i` (with `n > 1`: the
+    series `i .. i+n-1` side by side) cut to `(ub[i-1], ub[i]]` (the brackets as given), missing columns NaN -/
+theorem stitch_eq (dfs : List TS) (ub : List Int) (h : Stitchable dfs ub) (oc : Option (List Char)) (n : Nat) (l u : Bool)
+    (hb : brackets oc = .ok (l, u)) :
+    ∃ F, stitch dfs Option.none (some ub) oc n = .ok (some F) ∧
+      F.rows = (pieces dfs ub n l u).flatMap fun f => f.rows.map fun r => (r.1, padRow F.width r.2) := by
+  have hne : ub ≠ [] := by intro h0; have := h.two; simp [h0] at this
+  rw [stitch_ub_eq dfs ub oc n l u hb h.inc h.len hne,
+    assemble_many _ (by rw [pieces_length _ _ _ _ _ h.len hne]; exact h.two)]
+  exact ⟨_, rfl, rfl⟩
+
+/-- **stitch_source**: a row `(t, vs)` is in the stitched frame exactly when, for the piece `i` whose interval
+    `(ub[i-1], ub[i]]` holds `t` (brackets as given; the first interval is unbounded below), `t` is a timestamp of one
+    of the series `i .. i+n-1`, and then column `j` carries series `i+j`'s value at `t` (NaN where it has none;
+    columns beyond the last series are NaN) -/
+theorem stitch_source (dfs : List TS) (ub : List Int) (h : Stitchable dfs ub) (oc : Option (List Char)) (n : Nat)
+    (hn : 1 < n) (l u : Bool) (hb : brackets oc = .ok (l, u)) (F : Frame)
+    (hF : stitch dfs Option.none (some ub) oc n = .ok (some F)) (t : Int) (vs : List (Option Int)) :
+    (t, vs) ∈ F.rows ↔ ∃ i, ∃ hi : i < ub.length,
+      (∃ s ∈ (dfs.drop i).take n, t ∈ s.index) ∧
+      lbOk l (loBound ub i) t = true ∧ ubOk u (.date ub[i]) t = true ∧
+      vs = padRow F.width (((dfs.drop i).take n).map (·.get t)) := by
+  obtain ⟨F', hF', hrows⟩ := stitch_eq dfs ub h oc n l u hb
+  rw [hF] at hF'; cases hF'
+  have hne : ub ≠ [] := by intro h0; have := h.two; simp [h0] at this
+  have hpl := pieces_length dfs ub n l u h.len hne
+  have hfl := framesOf_length dfs n
+  have hlen := h.len
+  rw [hrows]
+  simp only [List.mem_flatMap, List.mem_map, Prod.mk.injEq]
+  constructor
+  · rintro ⟨f, hf, r, hr, rfl, rfl⟩
+    obtain ⟨i, hi, rfl⟩ := List.mem_iff_getElem.mp hf
+    have hi' : i < ub.length := by omega
+    have hfi : i < (framesOf dfs n).length := by omega
+    rw [pieces_getElem dfs ub n l u h.len i hi hi' hfi] at hr
+    simp only [List.mem_filter, inWindow, Bool.and_eq_true] at hr
+    have hfr : (framesOf dfs n)[i] = ⟨((dfs.drop i).take n).length, concatCols ((dfs.drop i).take n)⟩ := by
+      simp [framesOf, hn]
+    rw [hfr] at hr
+    obtain ⟨hmem, hlo, hhi⟩ := hr
+    obtain ⟨hex, hval⟩ := mem_concatCols.mp hmem
+    exact ⟨i, hi', hex, hlo, hhi, by rw [hval]⟩
+  · rintro ⟨i, hi', hex, hlo, hhi, rfl⟩
+    have hi : i < (pieces dfs ub n l u).length := by omega
+    have hfi : i < (framesOf dfs n).length := by omega
+    refine ⟨(pieces dfs ub n l u)[i], List.getElem_mem hi, (t, ((dfs.drop i).take n).map (·.get t)), ?_, rfl, rfl⟩
+    rw [pieces_getElem dfs ub n l u h.len i hi hi' hfi]
+    have hfr : (framesOf dfs n)[i] = ⟨((dfs.drop i).take n).length, concatCols ((dfs.drop i).take n)⟩ := by
+      simp [framesOf, hn]
+    rw [hfr]
+    simp only [List.mem_filter, inWindow, Bool.and_eq_true]
+    exact ⟨mem_concatCols.mpr ⟨hex, rfl⟩, hlo, hhi⟩
+
+/-- column `j` of such a row is series `i+j` at `t` -/
+theorem stitch_column (dfs : List TS) (i j n w : Nat) (t : Int) (hj : j < n) (hij : i + j < dfs.length) :
+    (padRow w (((dfs.drop i).take n).map (·.get t)))[j]? = some (dfs[i + j].get t) := by
+  have hlen : j < (((dfs.drop i).take n).map (·.get t)).length := by
+    simp only [List.length_map, List.length_take, List.length_drop]; omega
+  unfold padRow
+  rw [List.getElem?_append_left hlen]
+  simp [List.getElem?_take, hj, List.getElem?_drop, hij]
+
+/-- **stitch_once**: with brackets that are not closed on both sides (in particular the default `'(]'`) the stitched
+    index is strictly increasing: every timestamp is covered at most once, in order -/
+theorem stitch_once (dfs : List TS) (ub : List Int) (h : Stitchable dfs ub) (oc : Option (List Char)) (n : Nat) (l u : Bool)
+    (hb : brackets oc = .ok (l, u)) (hlu : ¬ (l = true ∧ u = true)) (F : Frame)
+    (hF : stitch dfs Option.none (some ub) oc n = .ok (some F)) :
+    F.rows.Pairwise (fun a b => a.1 < b.1) := by
+  obtain ⟨F', hF', hrows⟩ := stitch_eq dfs ub h oc n l u hb
+  rw [hF] at hF'; cases hF'
+  have hne : ub ≠ [] := by intro h0; have := h.two; simp [h0] at this
+  have hpl := pieces_length dfs ub n l u h.len hne
+  have hfl := framesOf_length dfs n
+  have hlen := h.len
+  have hub := nonDecreasing_pairwise ub h.inc
+  rw [hrows, List.pairwise_flatMap]
+  constructor
+  · intro f hf
+    obtain ⟨i, hi, rfl⟩ := List.mem_iff_getElem.mp hf
+    rw [pieces_getElem dfs ub n l u h.len i hi (by omega) (by omega)]
+    simp only [List.pairwise_map]
+    exact (framesOf_rows_sorted dfs n h.sorted _ (List.getElem_mem _)).sublist List.filter_sublist
+  · rw [List.pairwise_iff_getElem]
+    intro i j hi hj hij x hx y hy
+    rw [pieces_getElem dfs ub n l u h.len i hi (by omega) (by omega)] at hx
+    rw [pieces_getElem dfs ub n l u h.len j hj (by omega) (by omega)] at hy
+    simp only [List.mem_map, List.mem_filter, inWindow, Bool.and_eq_true] at hx hy
+    obtain ⟨rx, ⟨_, _, hxu⟩, rfl⟩ := hx
+    obtain ⟨ry, ⟨_, hyl, _⟩, rfl⟩ := hy
+    have hj0 : j ≠ 0 := by omega
+    have hjm : j - 1 < ub.length := by omega
+    have hle : ub[i]'(by omega) ≤ ub[j - 1]'hjm := by
+      by_cases he : i = j - 1
+      · subst he; exact Int.le_refl _
+      · exact (List.pairwise_iff_getElem.mp hub) i (j - 1) (by omega) hjm (by omega)
+    have hxu' := (ubOk_iff u (.date (ub[i]'(by omega))) rx.1).mp hxu
+    have hyl' : lbOk l (.date (ub[j - 1]'hjm)) ry.1 = true := by
+      simpa [loBound, hj0, List.getD_eq_getElem?_getD, hjm] using hyl
+    have hyl'' := (lbOk_iff l _ ry.1).mp hyl'
+    show rx.1 < ry.1
+    cases l <;> cases u <;> simp at hxu' hyl'' hlu <;> omega
+
+/-- bounds given in decreasing order (with the series in the matching order) stitch to the same frame -/
+theorem stitch_decreasing (dfs : List TS) (ub : List Int) (oc : Option (List Char)) (n : Nat)
+    (h1 : nonDecreasing ub = false) (h2 : nonDecreasing ub.reverse = true) :
+    stitch dfs Option.none (some ub) oc n = stitch dfs.reverse Option.none (some ub.reverse) oc n := by
+  simp [stitch, normalise, h1, h2]
+
+theorem tod_range (t : Int) : 0 ≤ tod t ∧ tod t < DAY := ⟨tod_nonneg t, tod_lt t⟩
 
 end Pyg.Props.C13
